@@ -230,6 +230,30 @@ pub fn build_corpus() -> Corpus {
             }
         }
     }
+    // XML documents another writer could produce: a migrating legacy property after (and before)
+    // the property it migrates to, on the classes that own them - rbx_xml's writer emits neither
+    {
+        let item = |class: &str, props: &str| format!("<Item class=\"{}\" referent=\"RBX{}\"><Properties><string name=\"Name\">{}</string>{}</Properties></Item>", class, class.len(), class, props);
+        let font_new = "<Font name=\"FontFace\"><Family><url>rbxasset://fonts/families/Arial.json</url></Family><Weight>700</Weight><Style>Italic</Style></Font>";
+        let font_old = "<token name=\"Font\">3</token>";
+        let color_new = "<Color3uint8 name=\"Color3uint8\">4278190335</Color3uint8>";
+        let color_old = "<int name=\"BrickColor\">21</int>";
+        let mesh_new = "<Content name=\"MeshContent\"><uri>rbxassetid://1</uri></Content>";
+        let mesh_old = "<Content name=\"MeshId\"><url>rbxassetid://2</url></Content>";
+        let inset_new = "<token name=\"ScreenInsets\">1</token>";
+        let inset_old = "<bool name=\"IgnoreGuiInset\">true</bool>";
+        for (k, order_new_first) in [true, false].into_iter().enumerate() {
+            let pair = |n: &str, o: &str| if order_new_first { format!("{}{}", n, o) } else { format!("{}{}", o, n) };
+            let doc = format!(
+                "<roblox version=\"4\">{}{}{}{}</roblox>",
+                item("TextLabel", &pair(font_new, font_old)),
+                item("Part", &pair(color_new, color_old)),
+                item("MeshPart", &pair(mesh_new, mesh_old)),
+                item("ScreenGui", &pair(inset_new, inset_old))
+            );
+            files.push(CorpusFile { kind: Kind::Xml, desc: format!("foreign-legacy-and-new/{}", if k == 0 { "new-first" } else { "legacy-first" }), bytes: doc.into_bytes() });
+        }
+    }
     for (i, a) in [
         Attributes::new().with("a", true),
         Attributes::new().with("x", Variant::Float64(0.1)).with("", Variant::BinaryString(BinaryString::from(vec![0u8, 255]))).with("cf", Variant::CFrame(CFrame::new(Vector3::new(1.0, 2.0, 3.0), Matrix3::identity()))),
@@ -566,6 +590,8 @@ pub struct Engine {
     splices: Vec<(usize, usize, usize, usize)>,
     read_calls: Vec<usize>,
     write_targets: Vec<(usize, u8, usize)>,
+    /// corpus files whose undisturbed decode did not finish (or killed the process)
+    pub hung_files: Vec<String>,
     /// (file, chunk, position): every position inside every chunk payload of the uncompressed corpus files
     payload_pos: Vec<(usize, usize, usize)>,
     /// (plan, codec) -> bytes written before any failure was injected
@@ -844,11 +870,26 @@ impl Engine {
             }
         }
         // number of read() calls of the undisturbed decode, per file
+        // (in a child with a time limit: a decoder that loops on an intact corpus file must not take
+        // the engine with it; such a file is reported and replaced by an empty one)
         let mut read_calls = Vec::new();
-        for f in &corpus.files {
-            let mut r = ScriptedReader::new(&f.bytes, vec![], false);
-            let _ = decode_with(f.kind, &mut r);
-            read_calls.push(r.calls);
+        let mut corpus = corpus;
+        let mut hung_files: Vec<String> = Vec::new();
+        for f in corpus.files.iter_mut() {
+            let (kind, bytes) = (f.kind, f.bytes.clone());
+            let calls = crate::forkpool::fork_timeout(20, move || {
+                let mut r = ScriptedReader::new(&bytes, vec![], false);
+                let _ = decode_with(kind, &mut r);
+                r.calls
+            });
+            match calls {
+                Some(c) => read_calls.push(c),
+                None => {
+                    hung_files.push(f.desc.clone());
+                    f.bytes = Vec::new();
+                    read_calls.push(0);
+                }
+            }
         }
         // write targets: (plan, codec 0..3 = binary compressions, 3 = xml, output length)
         let mut write_targets = Vec::new();
@@ -884,7 +925,7 @@ impl Engine {
                 xml_tag_pos.push((f, k));
             }
         }
-        Engine { corpus, tier, bin, xml, attr, xml_muts, chunk_ops, splices, read_calls, write_targets, payload_pos, write_reference, xml_tag_pos }
+        Engine { corpus, tier, bin, xml, attr, xml_muts, chunk_ops, splices, read_calls, write_targets, payload_pos, write_reference, xml_tag_pos, hung_files }
     }
 
     fn files_of(&self, family: usize) -> Vec<usize> {
@@ -1455,6 +1496,13 @@ fn short_out(o: &Out) -> String {
 pub fn check(run: &Run) -> Value {
     let tier = run.tier;
     let engine = Engine::new(tier);
+    for desc in &engine.hung_files {
+        run.violation(
+            "c13|decoder|hang-or-abort|intact-corpus-file",
+            &format!("decoding the intact corpus file {} does not finish within 20 s (or kills the process): a decoder must return Ok or Err", desc),
+            || json!({"corpus_file": desc}),
+        );
+    }
     let mut batches = Vec::new();
     let mut family_counts = BTreeMap::new();
     for fam in 0..FAMILIES.len() {
@@ -1518,7 +1566,7 @@ pub fn check(run: &Run) -> Value {
         );
     }
     if !res.abandoned.is_empty() {
-        println!("C13: {} batches abandoned after more than 200 abnormal cases each", res.abandoned.len());
+        println!("C13: {} batches abandoned (more than 200 abnormal cases in one batch, or more than 12 hangs overall)", res.abandoned.len());
     }
     total.report(run);
     println!(
@@ -1548,6 +1596,16 @@ pub fn check(run: &Run) -> Value {
 }
 
 pub fn replay(case: &Value) -> Vec<(String, String)> {
+    if let Some(desc) = case.get("corpus_file").and_then(|v| v.as_str()) {
+        // Engine::new decodes every intact corpus file in a child with a time limit
+        let engine = Engine::new(Tier::Quick);
+        return engine
+            .hung_files
+            .iter()
+            .filter(|d| d.as_str() == desc)
+            .map(|d| ("c13|decoder|hang-or-abort|intact-corpus-file".to_owned(), format!("decoding the intact corpus file {} does not finish within 20 s (or kills the process)", d)))
+            .collect();
+    }
     let r: Replay13 = serde_json::from_value(case.clone()).unwrap_or_else(|e| crate::evidence::machinery_failure(&format!("bad replay: {}", e)));
     let engine = Engine::new(Tier::Thorough);
     let mut a = SweepOut::default();
